@@ -252,11 +252,13 @@ PROPS['C23'] = {
 PROPS['C10'] = {
     'level': 'proof',
     'level_text': 'Narrow: only the resource guards the property names. Complete Kani harnesses on the real code: BoundedVecWriter::write keeps |inner| <= max_len, '
-                  'appends exactly the buffer or leaves the writer unchanged; ReaderUtils::read_to_vec fails before allocating whenever more is asked than is left, for all (len, pos, want) in u64^3.',
+                  'appends exactly the buffer or leaves the writer unchanged; ReaderUtils::read_to_vec fails before allocating whenever more is asked than is left, for all (len, pos, want) in u64^3; '
+                  'BoxReader::read_super_box_impl refuses every depth >= MAX_JUMB_DEPTH before reading; BoxReader::read_header is total on any <= 16 bytes and decodes size / largesize.',
     'level_note': 'NOT a proof that no input panics or hangs; parsers of the individual formats are outside reach. sizes <= 2^20 in the writer harness.',
     'technique': TECH_K,
-    'parts': [K('kani:resource_guards', 'sdk', [H('c10_bounded_writer_invariant'), H('c10_read_to_vec_guard')], timeout=1200,
-                functions=[('sdk/src/utils/io_utils.rs', 'write', r'impl Write for BoundedVecWriter \{'), ('sdk/src/utils/io_utils.rs', 'read_to_vec')])],
+    'parts': [K('kani:resource_guards', 'sdk', [H('c10_bounded_writer_invariant'), H('c10_read_to_vec_guard'), H('c10_jumbf_depth_guard'), H('c10_read_header_total')], timeout=1500,
+                functions=[('sdk/src/utils/io_utils.rs', 'write', r'impl Write for BoundedVecWriter \{'), ('sdk/src/utils/io_utils.rs', 'read_to_vec'),
+                           ('sdk/src/jumbf/boxes.rs', 'read_header'), ('sdk/src/jumbf/boxes.rs', 'read_super_box_impl')])],
     'trusted_base': TB_KANI,
     'rule': 'proof obligation = CBMC check of a complete harness',
     'not_covered': ['every format parser', 'stack depth', 'running time', 'CBOR / COSE / X.509 / brotli / XML decoders'],
